@@ -14,8 +14,10 @@ Open Scope N_scope.
 
 (* ---------------- authorized_keys / known_hosts ---------------- *)
 
-(* For ALL layouts — any sequence of entry lines, blank lines (any mix of space, tab, VT, FF, CR) and
-   comment lines (optional white space, '#', any text), LF or CRLF line endings, and 0, 1, 2, ... line
+(* For ALL layouts — any sequence of entry lines, blank lines (nothing but white-space runes in the sense of
+   unicode.IsSpace: TAB, VT, FF, CR, SPACE, U+0085, U+00A0, U+1680, U+2000..U+200A, U+2028, U+2029, U+202F,
+   U+205F, U+3000; or such white space up to a CR and anything after it) and comment lines (optional white
+   space of that kind, '#', any text: NUL bytes, CRs, any length), LF or CRLF line endings, and 0, 1, 2, ... line
    endings after the last line — the report is "SSH authorized_keys" with exactly one child per entry,
    in input order, child i carrying the attributes of entry i.  layout_ok: an entry line starts with a
    visible character other than '#' and contains no LF/CR; a comment's text contains no LF. *)
@@ -36,7 +38,9 @@ Theorem C06_known_hosts : forall lib its le trail,
 Proof. exact known_hosts_layout. Qed.
 Print Assumptions C06_known_hosts.
 
-(* the hypotheses are met by a realistic file (comment, key, blank, commented-out key, key, empty line) *)
+(* the hypotheses are met by a realistic file (comment, key, blank lines of ASCII and of Unicode white space (NBSP,
+   U+3000), commented-out key, a comment after U+2003 and a TAB with NUL and CR in its text, key, a line
+   that is blank up to its CR, empty line) *)
 Theorem C06_ssh_example : layout_ok example_layout = true /\
   (forall e, In e (entries_of example_layout) -> lib_accepts toy_lib e) /\
   entries_of example_layout = [toy_k1; toy_k2].
